@@ -354,6 +354,14 @@ def run(c, chk):
 
     # ---- R14.6 -----------------------------------------------------------------------------
     walker_template(c, chk, ex)
+    # ---- R14.11: a callback registered by path lands on the option of that name, not on one whose name begins the same or is
+    # spelled in another case (the rules for name comparisons of C11: R11.1 whole names, R11.16 case folding only by the flag)
+    if not isinstance(chk, report.SubCheck):
+        from . import c11 as _c11
+        chk.rule('R14.11', 'registration by path compares whole names, case-folding only under CFGF_NOCASE (rules R11.1, R11.16 of C11): the callback lands on the option named')
+        sub11 = report.SubCheck(chk, 'R14.11', 'C11', only=('R11.1', 'R11.16'))
+        _c11.run(c, sub11)
+        sub11.done('name comparisons')
     callbacks_travel(c, chk)
     for fname, fld in (('cfg_set_validate_func', 'validcb'), ('cfg_set_validate_func2', 'validcb2')):
         fn = c.need(fname)
